@@ -241,6 +241,22 @@ func runC11(c *Ctx) {
 	if f := c.A.Func("(*Conn).handleMail"); f != nil {
 		for _, site := range s.Find(f, "st:MailOptions.Auth") {
 			c.obFactMatch("AUTH value decoded", site, `^decodeXtext\(next#2\)#1 == nil$`, "AUTH stored without a successful xtext decode")
+			// RFC 4954: the decoded value is "<>" or a Mailbox — not a Path. What the backend is handed is therefore
+			// the xtext decoder's result, the empty string standing for "<>", or parseMailbox's result; parsePath would
+			// also accept (and strip) angle brackets and a source route
+			if _, _, v := storedField(site); v != nil {
+				if cell, isCell := stripConv(v).(*ssa.Alloc); isCell {
+					for _, ref := range *cell.Referrers() {
+						st, isSt := ref.(*ssa.Store)
+						if !isSt || st.Addr != ssa.Value(cell) {
+							continue
+						}
+						d := describe(st.Val)
+						ok := d == `""` || d == "decodeXtext(next#2)#0" || regexpCache(`^\(\*parser\)\.parseMailbox\(alloc:parser(#\d+)?\)#0$`).MatchString(d)
+						R.Ob(c.siteKey(st, "AUTH identity is the decoded value, empty, or a parsed Mailbox"), c.P.InstrPos(st), ok, "the AUTH identity handed to the backend can be "+d+": RFC 4954 allows \"<>\" or a Mailbox only (a Path parser also takes <...> and @route: forms and hands on something the client did not send)")
+					}
+				}
+			}
 		}
 	}
 
